@@ -402,76 +402,96 @@ Notation sok := ltac:(let v := eval vm_compute in (nth 2 g_poll_state_strings ""
 Notation sto := ltac:(let v := eval vm_compute in (nth 3 g_poll_state_strings ""%string) in exact v) (only parsing).
 Definition state_val (ack : bool) : pyval := PStr (if ack then swa else swr).
 
+(* Every local that the retry loop of poll() only reads has, throughout the loop, the value it had before the loop:
+   [f l = f Linit] for every observation f that none of the loop-assigned locals (g_poll_loop_stable, emitted by the
+   translator from the source) can change. *)
+Ltac stable_tac Hro :=
+  let f0 := fresh "f0" in let Hs := fresh "Hs" in intros f0 Hs; cbn;
+  let Hs' := fresh "Hs'" in pose proof Hs as Hs'; unfold g_poll_loop_stable in Hs';
+  repeat match type of Hs' with _ /\ _ => let A := fresh "A" in destruct Hs' as [A Hs'] end;
+  repeat match goal with H : forall l v, f0 (_ l v) = f0 l |- _ => rewrite H end;
+  apply Hro; exact Hs.
+Ltac ro l Hro Linit :=
+  repeat match goal with
+  | |- context [?p l] =>
+      let H := fresh "Hp" in
+      assert (H : p l = p Linit) by (apply Hro; unfold g_poll_loop_stable; repeat split; intros; reflexivity);
+      rewrite !H; clear H
+  end; cbn.
+
 Theorem bridge_poll : forall fuel fuel' rq (w : W), (fuel < fuel')%nat ->
   fst (poll B sk fuel rq w) <> OutOfFuel ->
   g_poll B sk fuel' (PReq rq None) w = lift_out (poll B sk fuel rq w).
 Proof.
   intros fuel fuel' rq w Hf. unfold g_poll, poll. py_unfold. cbn. rewrite !cls_test. unfold CLASS_CFG.
-  match goal with |- context [s_while _ ?c ?wb] =>
-    assert (Hwhile : forall payload wbody, (forall l w, wbody l w = wb l w) ->
-      forall k j l w ack resp d, (k < j)%nat -> (k < fuel')%nat ->
-        poll__frame_poll l = PReq rq (Some payload) -> poll__state l = state_val ack ->
-        poll__response l = resp_val resp -> poll__time_end l = PInt (Z.of_N d) -> (ack = true -> resp <> None) ->
-        match poll_phase B sk k (rq_cid rq) ack resp d w with
-        | (AFuel, _) => True
-        | (AOk f, w') => exists l', s_while j c wbody l w = CNormal l' w' /\ poll__state l' = PStr sok
-                                    /\ poll__response l' = PFrame f /\ poll__frame_poll l' = PReq rq (Some payload)
-        | (ATimeout, w') => exists l', s_while j c wbody l w = CNormal l' w' /\ poll__state l' = PStr sto
-                                    /\ poll__frame_poll l' = PReq rq (Some payload)
-        end) end.
-  { intros payload wbody Hwb; induction k as [|k IH]; intros j l w' ack resp d Hj Hk Hfp Hst Hre Hte Hinv; [exact I|].
-    rewrite poll_phase_unfold. unfold CLASS_CFG.
-    destruct (wait B sk (S k) d w') as [[[f|]|] w2] eqn:Hw; [| |exact I];
-    (destruct j as [|j]; [lia|]); cbn [s_while]; rewrite Hst;
-    (replace (negb (py_eq (state_val ack) (PStr sok)) && negb (py_eq (state_val ack) (PStr sto))) with true
-       by (destruct ack; reflexivity));
-    rewrite Hwb; cbv beta; rewrite Hte, (proj1 (bridge_wait fuel' _)),
-      (wait_mono (S k) fuel' d w' _ _ ltac:(lia) Hw); cbn.
-    - (* a frame arrived *)
-      rewrite Hst, Hfp. destruct ack; cbn.
-      + (* waiting for the ACK *)
-        rewrite bridge_check_ack_nak. cbn.
-        destruct (check_ack_nak (rq_cid rq) f); cbn.
-        * destruct resp as [r|]; [|exfalso; apply Hinv; reflexivity].
-          destruct j as [|j]; [lia|]. cbn. eexists. repeat split; cbn; try reflexivity; assumption.
-        * apply (IH j _ w2 true resp d); cbn; try assumption; try reflexivity; lia.
-        * apply (IH j _ w2 true resp d); cbn; try assumption; try reflexivity; lia.
-      + (* waiting for the response *)
-        rewrite bridge_check_poll. cbn.
-        destruct (cid_eqb (rf_cid f) (rq_cid rq)); cbn.
-        * rewrite Hfp. cbn. rewrite cls_test.
-          destruct (fst (rq_cid rq) =? 6); cbn.
-          -- rewrite <- N2Z.inj_add.
-             apply (IH j _ w2 true (Some f) (wnow w2 + sdelay (wsrv w2))); cbn; try assumption; try reflexivity; try lia.
-             discriminate.
-          -- destruct j as [|j]; [lia|]. cbn. eexists. repeat split; cbn; try reflexivity; assumption.
-        * apply (IH j _ w2 false resp d); cbn; try assumption; try reflexivity; lia.
-    - (* timeout: left by `break`, or by the loop condition at the next iteration *)
-      first [ eexists; repeat split; cbn; try reflexivity; assumption
-            | destruct j as [|j]; [lia|]; cbn; eexists; repeat split; cbn; try reflexivity; assumption ]. }
-  match goal with |- context [s_for_range _ ?b] =>
-    assert (Hfor : forall body, (forall l w, body l w = b l w) -> forall payload (n : nat) (w1 : W) (l0 : L_poll),
-      poll__frame_poll l0 = PReq rq (Some payload) ->
-      fst (poll_attempts B sk fuel n (rq_cid rq) payload w1) <> OutOfFuel ->
-      run_body (s_for_range n body l0 w1) = lift_out (poll_attempts B sk fuel n (rq_cid rq) payload w1)) end.
-  { intros body Hb payload n. induction n as [|n IH]; intros w1 l0 Hl; [reflexivity|].
-    cbn [s_for_range]. rewrite poll_attempts_unfold. rewrite Hb. cbv beta zeta. rewrite Hl, bridge_send.
-    destruct (send B (do_flush B w1) (rq_cid rq) payload) as [ok w2]. cbn.
-    destruct ok; cbn; [|apply IH; cbn; exact Hl].
-    unfold purge. cbn. rewrite ?with_parser_twice. rewrite <- N2Z.inj_add.
-    match goal with |- context [s_while fuel' _ _ ?la ?wa] =>
-      pose proof (Hwhile payload _ (fun _ _ => eq_refl) fuel fuel' la wa false None (wnow w2 + sdelay (wsrv w2))
-                    Hf Hf Hl eq_refl eq_refl eq_refl ltac:(discriminate)) as HW end.
-    destruct (poll_phase B sk fuel (rq_cid rq) false None _ _) as [[f| |] w3]; cbn.
-    - intros _. destruct HW as (l' & -> & Hs & Hr & Hp). cbn. rewrite Hs. cbn. rewrite Hr. cbn. rewrite ?Hr. reflexivity.
-    - intros Hnf. destruct HW as (l' & -> & Hs & Hp). cbn. rewrite Hs. cbn. apply IH; assumption.
-    - intros Hnf. exfalso. apply Hnf. reflexivity. }
   destruct (fst (rq_cid rq) =? 6) eqn:Hcfg; cbn; rewrite ?cidN_cidZ; cid_consts.
   all: match goal with |- context [set_filters ?p ?f] => set (w1 := with_parser (with_reg w _) (set_filters p f)) end.
   all: destruct (pack_body (rq_body rq)) as [payload|e]; cbn; [|reflexivity].
   all: change (sretries (wsrv w)) with (sretries (wsrv w1)).
   all: match goal with |- context [Z.to_nat ?z] => replace (Z.to_nat z) with (S (sretries (wsrv w1))) by lia end.
-  all: intros Hnf; apply (Hfor _ (fun _ _ => eq_refl)); [reflexivity|exact Hnf].
+  all: intros Hnf.
+  all: match goal with |- run_body (s_for_range _ ?b ?Li _) = _ => set (Linit := Li) end.
+  all: assert (Hfp0 : poll__frame_poll Linit = PReq rq (Some payload)) by reflexivity.
+  all: match goal with |- context [s_while _ ?c ?wb] =>
+    assert (Hwhile : forall wbody, (forall l w, wbody l w = wb l w) ->
+      forall k j l w ack resp d, (k < j)%nat -> (k < fuel')%nat ->
+        (forall f, g_poll_loop_stable f -> f l = f Linit) -> poll__state l = state_val ack ->
+        poll__response l = resp_val resp -> poll__time_end l = PInt (Z.of_N d) -> (ack = true -> resp <> None) ->
+        match poll_phase B sk k (rq_cid rq) ack resp d w with
+        | (AFuel, _) => True
+        | (AOk f, w') => exists l', s_while j c wbody l w = CNormal l' w' /\ poll__state l' = PStr sok
+                                    /\ poll__response l' = PFrame f /\ (forall f, g_poll_loop_stable f -> f l' = f Linit)
+        | (ATimeout, w') => exists l', s_while j c wbody l w = CNormal l' w' /\ poll__state l' = PStr sto
+                                    /\ (forall f, g_poll_loop_stable f -> f l' = f Linit)
+        end) end.
+  1, 3: intros wbody Hwb; induction k as [|k IH]; intros j l w' ack resp d Hj Hk Hro Hst Hre Hte Hinv; [exact I|];
+    rewrite poll_phase_unfold; unfold CLASS_CFG; rewrite Hcfg;
+    destruct (wait B sk (S k) d w') as [[[f|]|] w2] eqn:Hw; [| |exact I];
+    (destruct j as [|j]; [lia|]); cbn [s_while]; rewrite Hst;
+    (replace (negb (py_eq (state_val ack) (PStr sok)) && negb (py_eq (state_val ack) (PStr sto))) with true
+       by (destruct ack; reflexivity));
+    rewrite Hwb; cbv beta; rewrite Hte, (proj1 (bridge_wait fuel' _)),
+      (wait_mono (S k) fuel' d w' _ _ ltac:(lia) Hw); cbn;
+    [ (* a frame arrived *)
+      rewrite Hst; ro l Hro Linit; destruct ack; cbn;
+      [ (* waiting for the ACK *)
+        rewrite bridge_check_ack_nak; cbn;
+        destruct (check_ack_nak (rq_cid rq) f); cbn;
+        [ (destruct resp as [r|]; [|exfalso; apply Hinv; reflexivity]);
+          (destruct j as [|j]; [lia|]); cbn; eexists; repeat split; cbn; try reflexivity; try assumption; stable_tac Hro
+        | apply (IH j _ w2 true resp d); cbn; try assumption; try reflexivity; try lia; stable_tac Hro
+        | apply (IH j _ w2 true resp d); cbn; try assumption; try reflexivity; try lia; stable_tac Hro ]
+      | (* waiting for the response *)
+        rewrite bridge_check_poll; cbn;
+        destruct (cid_eqb (rf_cid f) (rq_cid rq)); cbn;
+        [ ro l Hro Linit; rewrite ?cls_test, ?Hcfg; cbn;
+          first [ (* configuration poll: on to the ACK *)
+                  rewrite <- N2Z.inj_add;
+                  apply (IH j _ w2 true (Some f) (wnow w2 + sdelay (wsrv w2))); cbn; try assumption; try reflexivity; try lia;
+                  first [ discriminate | stable_tac Hro ]
+                | (destruct j as [|j]; [lia|]); cbn; eexists; repeat split; cbn; try reflexivity; try assumption; stable_tac Hro ]
+        | apply (IH j _ w2 false resp d); cbn; try assumption; try reflexivity; try lia; stable_tac Hro ] ]
+    | (* timeout: left by `break`, or by the loop condition at the next iteration *)
+      first [ eexists; repeat split; cbn; try reflexivity; try assumption; stable_tac Hro
+            | (destruct j as [|j]; [lia|]); cbn; eexists; repeat split; cbn; try reflexivity; try assumption; stable_tac Hro ] ].
+  all: match goal with |- run_body (s_for_range _ ?b _ _) = _ =>
+    assert (Hfor : forall body, (forall l w, body l w = b l w) -> forall (n : nat) (w1 : W) (l0 : L_poll),
+      (forall f, g_poll_loop_stable f -> f l0 = f Linit) ->
+      fst (poll_attempts B sk fuel n (rq_cid rq) payload w1) <> OutOfFuel ->
+      run_body (s_for_range n body l0 w1) = lift_out (poll_attempts B sk fuel n (rq_cid rq) payload w1)) end.
+  1, 3: intros body Hb n; induction n as [|n IH]; intros w2 l0 Hl; [reflexivity|];
+    cbn [s_for_range]; rewrite poll_attempts_unfold; rewrite Hb; cbv beta zeta; ro l0 Hl Linit; rewrite bridge_send;
+    destruct (send B (do_flush B w2) (rq_cid rq) payload) as [ok w3]; cbn;
+    (destruct ok; cbn; [|apply IH; stable_tac Hl]);
+    unfold purge; cbn; rewrite ?with_parser_twice; rewrite <- N2Z.inj_add;
+    match goal with |- context [s_while _ _ _ ?la ?wa] =>
+      pose proof (Hwhile _ (fun _ _ => eq_refl) fuel fuel' la wa false None (wnow w3 + sdelay (wsrv w3))
+                    Hf Hf ltac:(stable_tac Hl) eq_refl eq_refl eq_refl ltac:(discriminate)) as HW end;
+    destruct (poll_phase B sk fuel (rq_cid rq) false None _ _) as [[f| |] w4]; cbn;
+    [ intros _; destruct HW as (l' & -> & Hs & Hr & Hp); cbn; rewrite Hs; cbn; rewrite Hr; cbn; rewrite ?Hr; reflexivity
+    | intros Hnf'; destruct HW as (l' & -> & Hs & Hp); cbn; rewrite Hs; cbn; apply IH; [stable_tac Hp | assumption]
+    | intros Hnf'; exfalso; apply Hnf'; reflexivity ].
+  all: apply (Hfor _ (fun _ _ => eq_refl)); [intros; reflexivity | exact Hnf].
 Qed.
 End Br.
 
